@@ -27,4 +27,20 @@ def handle (args : List String) : String :=
       if p.cancelled then "term=1" else "term=0"
   | _ => "bad-op"
 
+/-- Line protocol `clientstop <fault> <closemode>`: the replication client dies while closing its connection is
+quick (`normal`) or blocks (`hang`). The termination signal is raised iff the client's deferred `shutdown`
+cancels - and, when the close blocks, only if it cancels BEFORE anything else (`cancelBeforeRecover`: the
+`CancelFunc` call is the first statement). -/
+def clientStop (args : List String) : String :=
+  match args with
+  | [fault, mode] =>
+    if !(["recverr", "firstbad", "panic"].contains fault) || !(["normal", "hang"].contains mode) then "bad-op" else
+    match stages.find? (·.name == "client") with
+    | none => "bad-op"
+    | some f =>
+      let cancels := f.defersShutdownFirst && f.shutdownCancels && (fault != "panic" || f.recoverDirect)
+      let early := cancels && f.cancelBeforeRecover
+      if (mode == "hang" && early) || (mode == "normal" && cancels) then "term=1" else "term=0"
+  | _ => "bad-op"
+
 end PgBifrost.Driver.Runner
